@@ -7,7 +7,8 @@ from .. import core, tok, selftest
 from ..core import Case
 
 PROP = "C13"
-LIB = "c13lib"
+LIB0 = "c13lib"
+LIBM = "c13libm"   # cases with mock / export options: this library depends on mockall and on entrait's unimock feature
 
 POINTS = {
     # name: (module path inside the lib crate, path expression to the defining scope `p`)
@@ -18,6 +19,10 @@ POINTS = {
     "root": (["CID"], "self::gp::p"),
     "outside": (["CID_obs"], "crate::CID::gp::p"),
 }
+
+
+OPTION_SETS = [("entrait", "export, mockall"), ("entrait_export", "mockall"), ("entrait", "mockall"), ("entrait", "export"),
+               ("entrait", "mock_api = TrMock, unimock, export"), ("entrait_export", "unimock = true, mock_api = TrMock")]
 
 
 def scope_of(vis):
@@ -55,6 +60,9 @@ def enumerate_cases():
     # module and on the re-export beside it and are a documented limitation (tests/it/simple.rs); absolute ones are well-defined
     for req, item_vis in itertools.product(["", "pub", "pub(crate)", "pub(in crate::CID)"], ["", "pub", "pub(crate)"]):
         out.append(dict(kind="mod", req=req, item_vis=item_vis))
+    # mock / export options must not change the visibility (a mock exported to other crates does not make the trait pub)
+    for kind, req, item_vis, (macro, opts) in itertools.product(["fn", "mod"], ["", "pub(crate)"], ["", "pub"], OPTION_SETS):
+        out.append(dict(kind=kind, req=req, item_vis=item_vis, macro=macro, opts=opts))
     for tvis, avis, deleg in itertools.product(["", "pub", "pub(crate)", "pub(super)"], ["", "pub"], ["none", "static", "dyn"]):
         if deleg == "none" and avis:
             continue
@@ -66,10 +74,12 @@ def build(cid, spec):
     kind = spec["kind"]
     req = spec["req"].replace("CID", cid)
     names = ["Tr"]
+    macro = spec.get("macro", "entrait")
+    args = (req + " Tr").strip() + ((", " + spec["opts"]) if spec.get("opts") else "")
     if kind == "fn":
-        inv = "#[::entrait::entrait(%s)] /*@inv*/\n%s fn f<D>(deps: &D) -> i32 { 1 }" % ((req + " Tr").strip(), spec["item_vis"])
+        inv = "#[::entrait::%s(%s)] /*@inv*/\n%s fn f<D>(deps: &D) -> i32 { 1 }" % (macro, args, spec["item_vis"])
     elif kind == "mod":
-        inv = "#[::entrait::entrait(%s)] /*@inv*/\n%s mod m { pub fn f<D>(deps: &D) -> i32 { 1 } }" % ((req + " Tr").strip(), spec["item_vis"])
+        inv = "#[::entrait::%s(%s)] /*@inv*/\n%s mod m { pub fn f<D>(deps: &D) -> i32 { 1 } }" % (macro, args, spec["item_vis"])
     else:
         d = spec["deleg"]
         if d == "none":
@@ -112,6 +122,7 @@ def build(cid, spec):
 pub mod %(cid)s_obs { %(o_out)s }
 """ % dict(cid=cid, inv=inv, o_child=obs("child"), o_here=obs("here"), o_sib=obs("sibling"), o_parent=obs("parent"),
            o_root=obs("root"), o_out=obs("outside"))
+    LIB = LIBM if spec.get("opts") else LIB0
     ext = " ".join('::vrt::fact("ext:%s", ::vrt::visible_trait!(%s::%s::gp::p, %s%s));' % (n, LIB, cid, n, ", generic" if n == "TrImpl" else "") for n in names)
     if kind == "mod" and spec["item_vis"] == "pub":
         ext += ' ::vrt::fact("ext:via_mod", ::vrt::visible_trait!(%s::%s::gp::p::m, Tr));' % (LIB, cid)
@@ -144,6 +155,8 @@ def cross_check(rep, specs, by):
     must compile in one positive case; every point it calls invisible must be rejected with E0603/E0432 at its line."""
     cases = []
     for i, spec in enumerate(specs):
+        if spec.get("opts"):
+            continue   # the cross-check workspace has no mock crates; options are covered by the probe observations
         c0 = build("c13x_%03d" % i, spec)
         cid = c0.id
         tree = c0.meta["lib"].split("pub mod %s_obs" % cid)[0]
@@ -202,31 +215,42 @@ def run(tier, seed):
     rep = core.Report(PROP, tier, seed)
     rep.rule = ("exhaustive: requested visibility {none, pub, pub(crate), pub(in crate::path); fn inputs also pub(super), pub(self), pub(in super::super)} x item "
                 "visibility {none, pub, pub(crate)} x {fn, mod}; trait inputs: trait visibility {none, pub, pub(crate), pub(super)} x "
-                "{no target, static target, dynamic target} x visibility written before the target name; each observed from 7 points. "
+                "{no target, static target, dynamic target} x visibility written before the target name; fn / mod inputs x 6 mock / export "
+                "option sets (library crate with mockall and the unimock feature); each observed from 7 points. "
                 "non-trivial = requested visibility differs from the item's own visibility")
     specs = enumerate_cases()
     cases = [build("c13_%03d" % i, s) for i, s in enumerate(specs)]
     # the lib part of every case is its own module file of one library crate (diagnostics are attributed by file
     # name); the bin shard is the second crate
-    def lib_files(live):
-        files = {"Cargo.toml": "[package]\nname = \"%s\"\nversion = \"0.0.0\"\nedition = \"2021\"\n[dependencies]\nentrait = { path = \"%s\" }\nvrt = { path = \"../vrt\" }\n" % (LIB, core.REPO)}
-        root = ["#![allow(warnings)]"]
-        for c in live:
-            if "lib" not in c.meta:
-                continue
-            tree, obs = c.meta["lib"].split("pub mod %s_obs" % c.id)
-            inner = tree.strip()[len("pub mod %s {" % c.id):].rstrip()[:-1]
-            files["src/%s.rs" % c.id] = inner
-            root.append("pub mod %s;" % c.id)
-            root.append("pub mod %s_obs%s" % (c.id, obs))
-        files["src/lib.rs"] = "\n".join(root) + "\n"
-        return files
+    def lib_files_for(lib):
+        def lib_files(live):
+            ent = 'entrait = { path = "%s"%s }' % (core.REPO, ', features = ["unimock"]' if lib == LIBM else "")
+            extra = 'mockall = "0.12"\n' if lib == LIBM else ""
+            files = {"Cargo.toml": "[package]\nname = \"%s\"\nversion = \"0.0.0\"\nedition = \"2021\"\n[dependencies]\n%s\n%svrt = { path = \"../vrt\" }\n" % (lib, ent, extra)}
+            root = ["#![allow(warnings)]"]
+            for c in live:
+                if "lib" not in c.meta or c.meta["libname"] != lib:
+                    continue
+                tree, obs = c.meta["lib"].split("pub mod %s_obs" % c.id)
+                inner = tree.strip()[len("pub mod %s {" % c.id):].rstrip()[:-1]
+                files["src/%s.rs" % c.id] = inner
+                root.append("pub mod %s;" % c.id)
+                root.append("pub mod %s_obs%s" % (c.id, obs))
+            files["src/lib.rs"] = "\n".join(root) + "\n"
+            return files
+        return lib_files
+    for c in cases:
+        c.meta["libname"] = LIBM if c.meta["spec"].get("opts") else LIB0
     st = selftest.case("selftest_c13")
-    ws = core.Workspace(PROP, "x", extra_crates={LIB: lib_files}, nshards=4)
-    ws.extend(cases + [st])
-    ws.write()
-    b = ws.build()
-    ws.run(b["exes"])
+    # two workspaces: the cases with mock / export options need mockall and entrait's unimock feature in the library
+    # crate, and cargo would unify that feature into every other member
+    for label, lib in (("x", LIB0), ("m", LIBM)):
+        part = [c for c in cases if c.meta["libname"] == lib]
+        ws = core.Workspace(PROP, label, extra_crates={lib: lib_files_for(lib)}, nshards=4, unimock=(lib == LIBM))
+        ws.extend(part + ([st] if lib == LIB0 else []))
+        ws.write()
+        b = ws.build()
+        ws.run(b["exes"])
     selftest.verify(st)
     # records of the lib crate carry the case's file name (src/<cid>.rs), so they were attached by the driver
     by = {c.id: c for c in cases}
